@@ -490,8 +490,14 @@ class Armed:
             self.R.stats.inc("sensor_model_calls_without_context")
             return
         try:
+            # the reading as it was when the call was made (a reading object that shares storage with
+            # the filter would otherwise be read after the filter overwrote it)
+            snap_r = tokens[0][2] if tokens and tokens[0] is not None else None
+            rv = None
+            if snap_r is not None:
+                rv = {n: float(snap_r[i, 0]) for i, n in enumerate(names_of(b["sensor_reading"]))}
             vs = contract_sensor_model(ctx, ekf, b["state"], b["covariance"], b["sensor_key"],
-                                       b["sensor_reading"], res, self.R.stats)
+                                       b["sensor_reading"], res, self.R.stats, reading_values=rv)
         except Exception as e:  # noqa: BLE001
             self.R.stats.inc("oracle_errors")
             self.R.inconclusive += 1
@@ -513,7 +519,7 @@ class Armed:
                               defn=ctx.defn)])
 
 
-def contract_sensor_model(ctx, ekf, state, covariance, sname, reading, result, stats):
+def contract_sensor_model(ctx, ekf, state, covariance, sname, reading, result, stats, reading_values=None):
     """Kalman correction against the numpy reference; rejected readings must
     leave the estimate untouched.  Whether a reading counts as rejected is
     decided by the exact rule with a guard band (C06 owns the boundary)."""
@@ -526,7 +532,7 @@ def contract_sensor_model(ctx, ekf, state, covariance, sname, reading, result, s
     if not (np.all(np.isfinite(H)) and np.all(np.isfinite(hx))):
         stats.inc("unusable_reference")
         return out
-    zd = vec_dict(reading)
+    zd = reading_values if reading_values is not None else vec_dict(reading)
     z = np.array([[zd[r]] for r in readings])
     Q = ctx.Q(sname, readings)
     ref = O.update_ref(x, P, H, SH, Q, z, hx, shx)
